@@ -4,6 +4,7 @@ mod cp437;
 mod eexec;
 mod fexec;
 mod lexer;
+mod pexec;
 mod rexec;
 mod sexec;
 mod sink;
@@ -12,6 +13,50 @@ mod util;
 mod wexec;
 mod xexec;
 mod zexec;
+
+// ---- counting allocator (C05: peak heap growth while opening untrusted bytes)
+use std::alloc::{GlobalAlloc, Layout, System};
+use std::sync::atomic::{AtomicUsize, Ordering};
+static CUR: AtomicUsize = AtomicUsize::new(0);
+static PEAK: AtomicUsize = AtomicUsize::new(0);
+struct Counting;
+unsafe impl GlobalAlloc for Counting {
+    unsafe fn alloc(&self, l: Layout) -> *mut u8 {
+        let p = System.alloc(l);
+        if !p.is_null() {
+            let c = CUR.fetch_add(l.size(), Ordering::Relaxed) + l.size();
+            PEAK.fetch_max(c, Ordering::Relaxed);
+        }
+        p
+    }
+    unsafe fn dealloc(&self, p: *mut u8, l: Layout) {
+        CUR.fetch_sub(l.size(), Ordering::Relaxed);
+        System.dealloc(p, l)
+    }
+    unsafe fn realloc(&self, p: *mut u8, l: Layout, new: usize) -> *mut u8 {
+        let q = System.realloc(p, l, new);
+        if !q.is_null() {
+            if new >= l.size() {
+                let c = CUR.fetch_add(new - l.size(), Ordering::Relaxed) + (new - l.size());
+                PEAK.fetch_max(c, Ordering::Relaxed);
+            } else {
+                CUR.fetch_sub(l.size() - new, Ordering::Relaxed);
+            }
+        }
+        q
+    }
+}
+#[global_allocator]
+static GLOBAL: Counting = Counting;
+pub fn alloc_now() -> usize {
+    CUR.load(Ordering::Relaxed)
+}
+pub fn alloc_reset_peak() {
+    PEAK.store(CUR.load(Ordering::Relaxed), Ordering::Relaxed);
+}
+pub fn alloc_peak() -> usize {
+    PEAK.load(Ordering::Relaxed)
+}
 
 fn main() {
     let args: Vec<String> = std::env::args().collect();
@@ -28,6 +73,9 @@ fn main() {
         "cexec" => cexec::main_cexec(rest),
         "fexec" => fexec::main_fexec(rest),
         "texec" => texec::main_texec(rest),
+        "pexec" => pexec::main_pexec(rest),
+        "pexec-child" => pexec::main_pexec_child(rest),
+        "pexec-range" => pexec::main_pexec_range(rest),
         "xexec" => xexec::main_xexec(rest),
         "zexec" => zexec::main_zexec(rest),
         "lex" => {
